@@ -129,7 +129,7 @@ class Driver:
         self.api_errors = []
         self.inpaused = {}           # proto -> True while the app has an outstanding pause
         self.budget = {"open": {"A": rng.randint(1, 3), "B": rng.randint(1, 3)}, "reg": rng.randint(2, 8),
-                       "inbound": rng.randint(0, 12), "ticks": 120}
+                       "inbound": rng.randint(0, 12), "ticks": 120, "close_with": rng.choice([0, 0, 1, 2, 5])}
         self.inbound_calls = 0
         self.stop = False
 
@@ -202,6 +202,7 @@ class Driver:
                         streaming = True
                     else:
                         prod = PullP(self, p, rng.randint(1, 6))
+                        prod.may_leave_early = rng.random() < 0.25
                         streaming = False
                     self.producers.append(prod)
                     try:
@@ -214,19 +215,22 @@ class Driver:
                         self.produce(prod)       # starts producing at once unless it was told to wait
                 acts.append((("app", side, "register"), reg))
             regd = [q for q in self.producers if q.registered and self.side_of(q.proto) == side]
+            # most pull producers behave like FileSender: they stay until they have produced everything
+            unregable = [q for q in regd if q.kind == "push" or getattr(q, "may_leave_early", False)]
             for q in regd:
                 if q.kind == "push" and self.budget["ticks"] > 0 and (q.last in (None, "resume") or q.ignores):
                     def tick(q=q):
                         self.budget["ticks"] -= 1
                         self.produce(q)
                     acts.append((("app", side, "tick", id(q) % 997), tick))
-            if regd and rng.random() < 0.15:
-                def unreg(regd=regd):
+            if unregable and rng.random() < 0.15:
+                def unreg(regd=unregable):
                     self.unregister(rng.choice(regd))
                 acts.append((("app", side, "unregister"), unreg))
             closable = [q for q in regd if self.alive(q.proto)]
-            if closable and rng.random() < 0.06:
+            if closable and self.budget["close_with"] > 0 and rng.random() < 0.06:
                 def close_with(regd=closable):
+                    self.budget["close_with"] -= 1
                     q = rng.choice(regd)
                     q.proto.closed_local = True
                     q.closing = True          # stays registered until the subchannel is really closed
@@ -353,6 +357,24 @@ def run_case(spec):
                         fairness = "%s: producer on %s got two turns (steps %d, %d) while the paused producer on %s got none" % (side, q.proto.name, s0, s, other.proto.name)
             lastpos[q] = i
     viol = []
+    # pull producers: once everything has drained (link writable, Outbound unpaused), a pull producer
+    # that still has data and is still registered on a live subchannel must have been given its turns
+    starved = None
+    pull_finished = 0
+    for q in drv.producers:
+        if q.kind != "pull":
+            continue
+        if q.n == 0 or not q.registered:
+            pull_finished += 1
+            continue
+        side = drv.side_of(q.proto)
+        m = dp.manager(side)
+        conn = m._connection if m is not None else None
+        t = conn.transport if conn is not None else None
+        writable = t is not None and t.connected and not t.producerPaused and not m._outbound._paused
+        if writable and drv.alive(q.proto) and not getattr(q, "closing", False):
+            starved = "%s: pull producer on %s still has %d writes to make, got %d resumeProducing calls (last at step %s), but the link is writable and Outbound is not paused at the end of the drain" % (
+                side, q.proto.name, q.n, len(q.signals), q.signals[-1][0] if q.signals else None)
 
     def wit():
         return {"spec": spec, "buffer_size": r.default_buffer_size, "wire_capacity": r.wire_capacity,
@@ -362,6 +384,8 @@ def run_case(spec):
         viol.append({"key": k, "msg": "%s (first at step %d)" % (msg, step), "witness": wit()})
     if fairness:
         viol.append({"key": "C15/unfair-turns", "msg": fairness, "witness": wit()})
+    if starved:
+        viol.append({"key": "C15/pull-producer-starved", "msg": starved, "witness": wit()})
     for (name, what, step, at) in drv.late_signals[:1]:
         viol.append({"key": "C15/signal-after-unregister/" + what, "msg": "producer on %s got %s at step %d, unregistered at %d" % (name, what, step, at), "witness": wit()})
     for (name, step) in drv.pull_while_paused[:1]:
@@ -381,7 +405,7 @@ def run_case(spec):
     resumes = sum(1 for (_, q, w) in drv.signal_log if w == "resume")
     return {"violations": viol, "nontrivial": trace_digest(sch) if pauses else None,
             "counters": {"probes": stats["probes"], "producer_pauses": pauses, "producer_resumes": resumes,
-                         "producers": len(drv.producers), "pull_producers": sum(q.kind == "pull" for q in drv.producers),
+                         "producers": len(drv.producers), "pull_producers": sum(q.kind == "pull" for q in drv.producers), "pull_producers_finished": pull_finished,
                          "inbound_pause_calls": drv.inbound_calls, "pauses_inside_dataReceived": drv.pauses_in_data, "cuts": stats["cuts"], "notrans_seen": len(MON.notrans),
                          "log_errors_seen": len(MON.errors)},
             "sets": {"logged_errors": sorted({e[0] + ":" + e[3] for e in MON.errors})},
